@@ -333,6 +333,41 @@ pub fn run(tier: &str) -> i32 {
                 out.violation("good-body-not-extracted", None, json!({"result": results.first().map(|b| String::from_utf8_lossy(b).to_string())}));
             }
         }
+        // long bodies: every length up to 1300 bytes built from 1-, 2-, 3- and 4-byte
+        // characters with 0-3 bytes of ASCII padding in front (valid UTF-8, not JSON, not a
+        // number), and the same text inside an extra member of a valid document
+        let max_len = if quick { 700 } else { 1300 };
+        for unit in ["a", "\u{e9}", "\u{20ac}", "\u{1f600}"] {
+            for pad in 0..4usize {
+                let mut n = pad;
+                let mut body = "<".repeat(pad);
+                while n <= max_len {
+                    out.count("long_bodies");
+                    let _ = distinct.insert(fp64(body.as_bytes()));
+                    if let Some(r) = apply(&mut out, &name, &f, &ok, &hsets[0], body.as_bytes(), "long non-JSON body") {
+                        if !r.body.is_empty() {
+                            out.set_history(json!({"transform": name, "unit": unit, "pad": pad, "len": body.len()}));
+                            out.violation("long-garbage-not-refused", None, json!({"result": String::from_utf8_lossy(&r.body)}));
+                        }
+                    }
+                    if shape != Shape::Text && (n % 7 == 0) {
+                        let doc = match shape {
+                            Shape::FirstOfArray => format!("[{{\"pad\":\"{}\",\"height\":800000}}]", body.replace('<', "x")),
+                            Shape::DataBest => format!("{{\"data\":{{\"best_block_height\":800000,\"pad\":\"{}\"}}}}", body.replace('<', "x")),
+                            _ => format!("{{\"pad\":\"{}\",\"height\":800000}}", body.replace('<', "x")),
+                        };
+                        if let Some(r) = apply(&mut out, &name, &f, &ok, &hsets[0], doc.as_bytes(), "long valid document") {
+                            if r.body != canonical(Some(800000)) {
+                                out.set_history(json!({"transform": name, "unit": unit, "pad": pad, "len": doc.len()}));
+                                out.violation("long-document-not-extracted", None, json!({"result": String::from_utf8_lossy(&r.body)}));
+                            }
+                        }
+                    }
+                    body.push_str(unit);
+                    n += unit.len();
+                }
+            }
+        }
         match shape {
             Shape::Text => {
                 for body in text_bodies() {
@@ -426,7 +461,7 @@ pub fn run(tier: &str) -> i32 {
     out.samples.push(json!({"transform": "transform_bitcoin_mempool", "body": "800000\\n", "expected": "empty body"}));
     rep.out.merge(out);
     rep.evaluations = rep.out.states;
-    rep.rule = "all 10 exported transform functions + the testnet mempool endpoint object x statuses {0,199,200,201,404,500,2^64} x header sets {none, one, duplicates, 50}; text endpoints: all strings of length <= 4 over {0,1,9,+,-,space,newline,.,e,a,0xFF} plus 2^64-1, 2^64, leading zeros, trailing newline, non-ASCII digit; JSON endpoints: 16 leaf values placed at / next to / instead of the extracted path, with extra members, both member orders, duplicate keys, in 4 whitespace styles, every byte prefix, an invalid UTF-8 byte at every position; distinct = distinct body bytes".into();
+    rep.rule = "all 10 exported transform functions + the testnet mempool endpoint object x statuses {0,199,200,201,404,500,2^64} x header sets {none, one, duplicates, 50}; text endpoints: all strings of length <= 4 over {0,1,9,+,-,space,newline,.,e,a,0xFF} plus 2^64-1, 2^64, leading zeros, trailing newline, non-ASCII digit; JSON endpoints: 16 leaf values placed at / next to / instead of the extracted path, with extra members, both member orders, duplicate keys, in 4 whitespace styles, every byte prefix, an invalid UTF-8 byte at every position; long bodies: every length up to 700 (1300 thorough) bytes of 1/2/3/4-byte characters with 0-3 bytes of ASCII padding, alone and inside an extra member of a valid document; distinct = distinct body bytes".into();
     rep.bounds = json!({"tier": tier});
     rep.assume("documents are rendered from the harness's own AST, so the expected value at the path is known without a JSON parser");
     rep.assume("duplicate keys: either occurrence may be extracted; a leading '+' in a text body and numbers beyond f64 (1e400) are undecided");
@@ -435,5 +470,6 @@ pub fn run(tier: &str) -> i32 {
     rep.floor("json_documents_extracted", 100);
     rep.floor("json_documents_null", 200);
     rep.floor("invalid_utf8_bodies_refused", 1000);
+    rep.floor("long_bodies", 10_000);
     rep.finish()
 }
